@@ -42,7 +42,8 @@ where
     pub(crate) fn extract_props_type(&mut self, setup_fn: &ExprOrSpread) -> Option<Expr> {
         let mut defaults = None;
         let first_param_type = if let ExprOrSpread { expr, spread: None } = setup_fn {
-            match &**expr {
+            // (redundant parentheses around the setup function are not printed again)
+            match expr.unwrap_parens() {
                 Expr::Arrow(arrow) => arrow.params.first().and_then(|param| {
                     if let Pat::Assign(AssignPat { right, .. }) = param {
                         defaults = Some(&**right);
@@ -1249,7 +1250,7 @@ where
             type_ann: second_param_type,
             ..
         } = if let ExprOrSpread { expr, spread: None } = setup_fn {
-            match &**expr {
+            match expr.unwrap_parens() {
                 // (a defaulted parameter, `ctx: SetupContext<E> = fallback`, is annotated too)
                 Expr::Arrow(arrow) => arrow.params.get(1).and_then(extract_type_ann_from_pat),
                 Expr::Fn(fn_expr) => setup_params(&fn_expr.function)
